@@ -42,4 +42,4 @@ def replay(ctx, case):
 def probes(ctx):
     from vpbt import gfi_probes
 
-    gfi_probes.run_probes(ctx, ['switch_index_out_of_range', 'scan_index_edit_final_carry', 'assess_empty_sample'])
+    gfi_probes.run_probes(ctx, ['switch_index_out_of_range', 'scan_index_edit_final_carry', 'assess_empty_sample', 'vmap_zero_length_backward'])
